@@ -57,8 +57,11 @@ Definition two64 : Z := 18446744073709551616.
 Definition two52 : Z := 4503599627370496.
 Definition inf_bits : Z := 9218868437227405312.      (* 0x7FF0_0000_0000_0000 *)
 
-Definition f_sign (b : Z) : bool := two63 <=? b.            (* is_sign_negative *)
-Definition f_mag (b : Z) : Z := if f_sign b then b - two63 else b.
+(* [b mod two64] is [b] itself on a 64-bit pattern; it only keeps the functions
+   meaningful on every Z, so the order laws need no range hypothesis *)
+Definition f_sign (b : Z) : bool := two63 <=? b mod two64.  (* is_sign_negative *)
+Definition f_mag (b : Z) : Z :=
+  if f_sign b then b mod two64 - two63 else b mod two64.
 Definition f_is_nan (b : Z) : bool := inf_bits <? f_mag b.
 
 (* f64::total_cmp: the i64 key  bits ^ (((bits >> 63) as u64) >> 1) *)
